@@ -36,7 +36,7 @@ pub fn run(scn: &Value, want_events: bool) -> Value {
     json!({"out": outcome(&r), "ev": ev})
 }
 
-const PATHS: [&str; 9] = ["a", "b", "d/a", "d/b", "e/d/a", "ab", "A", ".h", "d/.h"];
+const PATHS: [&str; 11] = ["a", "b", "d/a", "d/b", "e/d/a", "ab", "A", ".h", "d/.h", "da", "e/da"];
 const PATS: [&str; 12] = ["a", "*", "d/*", "?", "*a", "d/?", "e/*", "??", "A", "?h", "*h", "d*"];
 
 fn rand_rule(rng: &mut impl Rng) -> Value {
